@@ -272,6 +272,32 @@ def arange(start, stop, step, length, dtype, like=None):
     return res[:-1] if len(res) > length else res
 
 
+def arange_block(start, step, offset, size, dtype, like=None):
+    """Elements ``offset : offset + size`` of ``np.arange(start, stop, step, dtype=dtype)``.
+
+    Every element is computed from its global index the way NumPy fills the array
+    (``first + index * (second - first)`` in the arithmetic of ``dtype``), so neither
+    the length of a block nor its values depend on how the array is chunked.
+    """
+    from dask.array.utils import arange_safe
+
+    dtype = np.dtype(dtype)
+    pair = np.asarray([start, start + step])
+    if dtype.kind not in "iufc" or pair.dtype.kind not in "iufc":
+        # no index arithmetic for this dtype: let np.arange build the block
+        blockstart = start + offset * step
+        blockstop = start + (offset + size) * step
+        return arange(blockstart, blockstop, step, size, dtype, like=like)
+    # float arguments with an integer dtype: the values are cast at the end
+    comp = pair.dtype if dtype.kind in "iu" and pair.dtype.kind in "fc" else dtype
+    first, second = pair.astype(comp)
+    idx = arange_safe(offset, offset + size, 1, like=like)
+    res = first + idx.astype(comp) * (second - first)
+    if offset <= 1 < offset + size:
+        res[1 - offset] = second  # NumPy stores ``start + step`` itself
+    return res.astype(dtype, copy=False)
+
+
 def linspace(start, stop, num, endpoint=True, dtype=None):
     from dask.array.core import Array
 
